@@ -276,7 +276,10 @@ MANIFEST_TEXT = {
                     "of missed flags since the last reset; one handleValidatorSignature call appends the flag, the counter is the number of misses among "
                     "the last W flags, and the validator is slashed+jailed exactly when height > start+W, the count exceeds W - minSigned, it exists and "
                     "is not jailed, after which the window is empty; MinSignedPerWindow is the half-even rounding of minSigned*W. For every W >= 1. "
-                    "Tied by differential runs with W in {1,2,3,5,10}, fractions {0,.05,.5,.95,1} and per-validator reliabilities.",
+                    "Lifted to an invariant of every state reachable from a fresh genesis by histories without a governance change of the window "
+                    "(run_windowInv, counter_always_window_count): every address's counter is always the number of misses among its last W flags. "
+                    "Tied by differential runs with W in {1,2,3,5,10} and 256..511 (long chains), fractions {0,.05,.5,.9,.95,.99,1}, per-validator "
+                    "reliabilities, and a punish-iff monitor that re-derives every punishment decision.",
             "note": "window size and fraction are configuration: constant over the history the theorem speaks about",
             "technique": "Lean 4 refinement proof over executable model + differential correspondence"},
     "C03": {"text": "Lean theorems over the ante/runTx model with ideal signatures: an accepted transaction was signed by the key of the signer the "
@@ -356,3 +359,9 @@ MANIFEST_TEXT = {
 # C07/C08/C09: a second generator profile with long chains over sliding windows of 256..511 slots
 for _p in ("C07", "C08", "C09"):
     PROPS[_p]["t1"] = CHAIN_T1 + [CHAIN_T1_DOWNTIME]
+
+# C08: the global form (every reachable state) lives in its own module
+PROPS["C08"]["lean_modules"] = PROPS["C08"]["lean_modules"] + ["Posmint.Props.C08Global"]
+PROPS["C08"]["namespaces"] = PROPS["C08"]["namespaces"] + ["Posmint.Props.C08Global"]
+PROPS["C08"]["required_theorems"] = PROPS["C08"]["required_theorems"] + ["Posmint.Props.C08Global." + t for t in
+    ("genesis_windowInv", "step_windowInv", "run_windowInv", "counter_always_window_count")]
